@@ -75,7 +75,9 @@ class C11Disk(Scenario):
         if r < 91:
             return {"op": "export", "dir": rng.choice(seams.Scratch.DIRS),
                     "style": rng.choice(("abs", "rel", "path", "relpath"))}
-        if r < 95:
+        if r < 93:
+            return {"op": "clear"}
+        if r < 96:
             # a second on-disk filter with the SAME file name in another directory, always spelled relative to its
             # own directory: the two backing files must not influence each other
             return {"op": "decoy", "dir": rng.choice(seams.Scratch.DIRS), "ks": [rng.below(cfg["universe"]) for _ in range(rng.between(0, 3))]}
@@ -374,6 +376,18 @@ class C11Disk(Scenario):
             return {"r": "ok"}
         if op == "decoy":
             return self.do_decoy(step)
+        if op == "clear":
+            if self.f is None:
+                return "skip"
+            # the statement speaks about add/close, so crash points inside clear() are not judged; but everything
+            # that follows (adds, closes, reopens) is judged against the cleared history
+            self.f.clear()
+            self.done = []
+            self.count = 0
+            self.twin = self.new_twin()
+            ctx.fault("clear")
+            self.check_after_return("clear", None)
+            return {"r": "ok"}
         if op == "reopen":
             if self.f is not None:
                 return "skip"
